@@ -710,7 +710,54 @@ fn quadline_case<S: Fl>(ctx: &mut Ctx) {
 /// a segment for curve×segment queries: random, or a chord through curve points extended a bit
 fn gen_curve_seg<S: Fl>(g: Gen, rng: &mut Rng, sample: &dyn Fn(S) -> Point<S>) -> (LineSegment<S>, &'static str) {
     let lat = g == Gen::Lattice || g == Gen::Degenerate;
-    match rng.below(8) {
+    match rng.below(13) {
+        8..=12 => {
+            // Axis-aligned stream: an exactly (or nearly) vertical / horizontal segment whose
+            // carrier line passes through a point of the curve (off-origin: the coordinates are
+            // those of the curve), with the segment either containing that point ("cross") or
+            // lying beside it on the same line ("miss").  Only the long axis of such a segment
+            // can tell whether a root of the line query is inside the segment.
+            let t = S::of(if lat { rng.range(1, 7) as f64 / 8.0 } else { rng.uniform(0.08, 0.92) });
+            let a = sample(t);
+            let (mut ax, mut ay) = (a.x.f(), a.y.f());
+            if lat && rng.chance(1, 2) {
+                // integer carrier line, in general not through a sampled point
+                ax = ax.round();
+                ay = ay.round();
+            }
+            let scale = ax.abs().max(ay.abs()).max(1.0);
+            let len = if lat { rng.range(1, 12) as f64 } else { scale * rng.uniform(0.05, 1.0) };
+            let vertical = rng.chance(1, 2);
+            let (lo, hi, miss) = match rng.below(4) {
+                0 | 1 => {
+                    let (u1, u2) = if lat { (rng.range(1, 4) as f64 / 4.0, rng.range(1, 4) as f64 / 4.0) } else { (rng.uniform(0.15, 1.0), rng.uniform(0.15, 1.0)) };
+                    (-len * u1, len * u2, false)
+                }
+                2 => (len * 0.25, len * 1.25, true),
+                _ => (-len * 1.25, -len * 0.25, true),
+            };
+            let near = !lat && rng.chance(1, 3);
+            let tilt = if near { len * 1e-3 * rng.uniform(-1.0, 1.0) } else { 0.0 };
+            let (mut from, mut to) = if vertical {
+                (point(S::of(ax), S::of(ay + lo)), point(S::of(ax + tilt), S::of(ay + hi)))
+            } else {
+                (point(S::of(ax + lo), S::of(ay)), point(S::of(ax + hi), S::of(ay + tilt)))
+            };
+            if rng.chance(1, 2) {
+                std::mem::swap(&mut from, &mut to);
+            }
+            let kind = match (vertical, miss, near) {
+                (true, false, false) => "axis-vertical-cross",
+                (true, true, false) => "axis-vertical-miss",
+                (false, false, false) => "axis-horizontal-cross",
+                (false, true, false) => "axis-horizontal-miss",
+                (true, false, true) => "near-vertical-cross",
+                (true, true, true) => "near-vertical-miss",
+                (false, false, true) => "near-horizontal-cross",
+                (false, true, true) => "near-horizontal-miss",
+            };
+            (LineSegment { from, to }, kind)
+        }
         0..=3 => {
             let t = S::of(if lat { rng.range(1, 7) as f64 / 8.0 } else { rng.uniform(0.08, 0.92) });
             let a = sample(t);
